@@ -289,9 +289,9 @@ def run(ctx):
             info, _ = bool_condition(pml, bb)
             if info and info[0] == "disc" and info[2] == "core::option::Option" and \
                     place_local(cm[0].dest) in pml.derives_from(place_local(info[1])):
-                for v, s in switch_edges(pml, bb):
-                    if v == 1:  # Some(map)
-                        none_only = not (set(src) & pml.reachable_blocks(s, avoid={bb}))
+                from .guards import succ_for_value
+                s = succ_for_value(pml, bb, 1)  # Some(map)
+                none_only = not (set(src) & pml.reachable_blocks(s, avoid={bb}))
                 break
         ok = own and none_only
         msg = "cache consulted for the function's own crate: %s; source lowering only when the crate has no cache: %s" % (own, none_only)
